@@ -823,6 +823,9 @@ func (interp *Interpreter) cfg(root *node, sc *scope, importPath, pkgName string
 					dest.gen = nop
 				case isFuncField(dest):
 					// Setting a struct field of function type requires an extra step. Do not optimize.
+				case n.nleft > 1 && n.nright > 1 && src.kind != basicLit:
+					// In a multiple assignment, all the right hand side operands are
+					// evaluated before any store: do not store a source directly.
 				case isCall(src) && !isInterfaceSrc(dest.typ) && n.kind != defineStmt:
 					// Call action may perform the assignment directly.
 					if dest.typ.id() != src.typ.id() {
